@@ -13,7 +13,7 @@ import numpy as np
 import fsic
 
 from .. import refsolve, scripted
-from ..core.runner import Acc, guard, CaseTimeout
+from ..core.runner import Acc, guard, CaseTimeout, robust
 from . import c02
 
 ID = 'C06'
@@ -73,6 +73,7 @@ def blocks(tier, seed):
     return out
 
 
+@robust(2, (False, ("exception",)))
 def run_nat_case(case):
     i = case['i']
     kw = dict(min_iter=case['min_iter'], max_iter=case['max_iter'], tol=1e-10, failures=case['failures'],
